@@ -282,6 +282,8 @@ class Mod:
                         p.vals.append("None") if p.ann is None or p.ann.startswith("Optional") else None
                 else:
                     p.default = rng.choice(p.vals)
+        if unique and f.kind == "module" and f.idx % 7 == 2 and params and params[0].kind in ("posonly", "normal"):
+            params[0].name = ["cls", "self"][(f.idx // 7) % 2]  # a plain function whose first parameter merely has a receiver's name
         f.params = params
 
     def value_pool(self):
@@ -343,6 +345,9 @@ class Mod:
                 f.exit = rng.choice(["return", "none", "none", "raise"])
                 if f.exit == "return":
                     f.ret_vals = [rng.choice(["1", "'s'", "A()", "None", "[1]"])]
+                    if idx % 4 == 1:
+                        # some calls return a value and others return None (bare return): the third argument of Generator is Optional
+                        f.ret_vals = [["1", "None"], ["None", "A()"], ["'s'", "None", "1"]][(idx // 4) % 3]
                 if rng.random() < self.opts.get("annotate", 0.35) * 0.6:
                     f.ret_ann = rng.choice(["Iterator[Any]", "Generator[Any, None, None]"]) if f.exit != "return" else "Generator[Any, None, Any]"
             else:
